@@ -27,6 +27,7 @@
 
 
 #include <xalanc/XalanDOM/XalanDocumentFragment.hpp>
+#include <xalanc/XalanDOM/XalanNamedNodeMap.hpp>
 
 
 
@@ -906,6 +907,40 @@ StylesheetRoot::getNodeSetByKey(
 
 
 
+// XSLT 1.0, section 3.4: a whitespace text node is preserved if an ancestor
+// element has an xml:space attribute with the value "preserve", and no closer
+// ancestor element has one with the value "default".  The nearest element
+// (starting with the parent) that carries the attribute decides.
+static bool
+isXMLSpacePreserved(const XalanNode*    theElement)
+{
+    while (theElement != 0 &&
+           theElement->getNodeType() == XalanNode::ELEMENT_NODE)
+    {
+        const XalanNamedNodeMap* const  theAttributes =
+                theElement->getAttributes();
+
+        if (theAttributes != 0 && theAttributes->getLength() != 0)
+        {
+            const XalanNode* const  theSpaceAttribute =
+                    theAttributes->getNamedItem(Constants::ATTRNAME_XMLSPACE);
+
+            if (theSpaceAttribute != 0)
+            {
+                return equals(
+                            theSpaceAttribute->getNodeValue(),
+                            Constants::ATTRVAL_PRESERVE);
+            }
+        }
+
+        theElement = theElement->getParentNode();
+    }
+
+    return false;
+}
+
+
+
 bool
 StylesheetRoot::internalShouldStripSourceNode(const XalanText&  textNode) const
 {
@@ -935,7 +970,8 @@ StylesheetRoot::internalShouldStripSourceNode(const XalanText&  textNode) const
 
             if (theTester(*theElement) != XPath::eMatchScoreNone)
             {
-                return theTester.getType() == XalanSpaceNodeTester::eStrip;
+                return theTester.getType() == XalanSpaceNodeTester::eStrip &&
+                       isXMLSpacePreserved(theElement) == false;
             }
 
             ++i;
